@@ -244,7 +244,12 @@ func c15DrawNames(r *rand.Rand, n int, codec string, forAttr bool) []string {
 func c15DrawText(r *rand.Rand, codec string) string {
 	t := c15TextPool[r.Intn(len(c15TextPool))]
 	if r.Intn(3) == 0 {
-		t += c15TextPool[r.Intn(len(c15TextPool))]
+		t2 := t + c15TextPool[r.Intn(len(c15TextPool))]
+		// yaml.v3 v3.0.1 cannot read back its own block scalar with an indentation indicator (a text that starts with a
+		// blank or a line break and holds a line break, as a sequence item: `- |4-`): third-party, see notes/C15.md; not generated
+		if !(codec == "yaml" && strings.ContainsAny(t2, "\n") && strings.ContainsAny(t2[:1], " \n\t")) {
+			t = t2
+		}
 	}
 	return t
 }
